@@ -101,6 +101,10 @@ class TypeMap:
                 A = cargs[1] if len(cargs) > 1 else 'BasicAllocatorWrapper<%s, SimpleAllocator>' % T
                 S = cargs[2] if len(cargs) > 2 else 'unsigned int'
                 cargs = [T, A, S, 'DynamicGrowingPolicy', '0']
+            if head == 'FlatSet' and len(cargs) in (2, 3):
+                if len(cargs) == 2:
+                    cargs.append('BasicAllocatorWrapper<%s, SimpleAllocator>' % cargs[0])
+                cargs.append('Vector<%s, %s, unsigned int, DynamicGrowingPolicy, 0>' % (cargs[0], cargs[2]))
             if head == 'VectorWithInplaceStorage' and len(cargs) == 6 and cargs[5] == 'void':
                 cargs = cargs[:5]
             for bi in self.BOOL_ARGS.get(head, []):
@@ -116,8 +120,19 @@ class TypeMap:
             return r
         return self.canon_head(s)
 
+    context_record = None
+    _resolving = False
+
     def canon_head(self, h):
         h = h.strip()
+        if self.context_record and self.alias_resolver and not self._resolving and re.fullmatch(r'[A-Za-z_]\w*', h) and h not in BUILTIN and h not in ALIASES and h != self.elem:
+            self._resolving = True
+            try:
+                r = self.alias_resolver(self.context_record, h)
+            finally:
+                self._resolving = False
+            if r is not None:
+                return r
         if h in ALIASES:
             return ALIASES[h]
         return h
